@@ -296,6 +296,7 @@ func (h *c20Harness) doExport() *Violation {
 	w1.DB = dbm.NewMemDB()
 	w1.Enc, w1.TxCfg, w1.ValKey, w1.ValHash, w1.Actors = w0.Enc, w0.TxCfg, w0.ValKey, w0.ValHash, w0.Actors
 	w1.App = newApp(w1.DB, w0.Cfg.ChainID)
+	w1.Cdp, w1.Dex, w1.Lend = w0.Cdp, w0.Dex, w0.Lend // set-up plans are read-only data
 	if w0.Band != nil {
 		b := *w0.Band
 		w1.Band = &b
